@@ -21,6 +21,11 @@ Preemption points of the app thread (numbered 1.. in program order; point n
 asks the symbolic flag `preempt_<n>` lazily, i.e. the engine forks there):
 * 'call'     before the call (asked by the harness through `Sched.point`),
 * 'acquire'  every lock acquisition while the app thread holds no lock,
+* 'nested'   every acquisition of a further lock while it holds one: a link
+             step that then needs a lock the app thread holds while owning the
+             one the app thread wants is a lock-order deadlock
+             (`CoopDeadlock`); one that would merely have to wait is
+             `Unrepresentable` (pruned by the harness, listed as assumption),
 * 'line'     (fine mode only) every new source line of the traced nfc modules
              executed while the app thread holds no lock,
 * 'wait'     inside `Condition.wait()`, after the lock has been released.
@@ -70,6 +75,23 @@ class LinkBlocked(CoopSignal):
 
 
 class CoopDeadlock(CoopSignal):
+    """a link step needs a lock owned by the application thread, which in
+    turn sleeps in wait() or wants a lock the link step owns (cycle)"""
+
+    def __init__(self, site, held=None, wanted=None, link_holds=()):
+        CoopSignal.__init__(self, site)
+        self.site = site
+        self.held = held            # lock of the app thread the link needs
+        self.wanted = wanted        # lock the app thread is acquiring (or None)
+        self.link_holds = link_holds
+
+
+class Unrepresentable(CoopSignal):
+    """a link step would have to wait for a lock the application thread
+    owns although there is no cycle: the application thread would go on and
+    the link step resume later - not a schedule of this model (link steps
+    are atomic).  The harness prunes the path and says so."""
+
     def __init__(self, site):
         CoopSignal.__init__(self, site)
         self.site = site
@@ -111,6 +133,9 @@ class Sched(object):
         self.fine = False
         self.trace_files = ()
         self.last_line = None
+        self.app_wants = None    # lock the app thread is acquiring while it
+        #                          owns another one (nested acquisition)
+        self.locks = []          # every lock created on this path
 
     # ---- link thread
     def run_step(self, kind, site):
@@ -318,6 +343,8 @@ class CoopRLock(object):
     def __init__(self):
         self.owner = None
         self.count = 0
+        self.made = _site()      # who created it: names the lock in labels
+        SCHED.locks.append(self)
 
     def acquire(self, blocking=True, timeout=-1):
         s = SCHED
@@ -325,7 +352,12 @@ class CoopRLock(object):
         if self.count and self.owner != me:
             # held by another logical thread
             if me == 'link':
-                raise CoopDeadlock(_site())
+                want = s.app_wants
+                mine = [k for k in s.locks if k.count and k.owner == 'link']
+                if self.owner != 'app' or want is None or want in mine:
+                    # the owner sleeps in wait() or wants what we own
+                    raise CoopDeadlock(_site(), self, want, mine)
+                raise Unrepresentable(_site())
             # app/setup meet a lock left behind by an abandoned setup call or
             # by the link thread: cannot happen (steps run to completion)
             raise RuntimeError("coop: lock owned by %s wanted by %s at %s"
@@ -333,6 +365,13 @@ class CoopRLock(object):
         if self.count == 0:
             if me == 'app' and s.held['app'] == 0:
                 s.ask('acquire', _site())
+            elif me == 'app':
+                # nested: the app thread owns another lock and wants this one
+                s.app_wants = self
+                try:
+                    s.ask('nested', _site())
+                finally:
+                    s.app_wants = None
             s.held[me] += 1
         self.owner = me
         self.count += 1
